@@ -33,6 +33,7 @@ var precGapPieces = 2
 // precMinusRuns[i] = number of minus signs written before operand i (when set)
 var precMinusRuns []int
 var precThorough = false
+var precQ = false
 
 var c10Prec = map[string]int{"or": 1, "and": 2, "=": 3, "!=": 3, "<": 4, "<=": 4, ">": 4, ">=": 4, "+": 5, "-": 5, "*": 6, "div": 6, "mod": 6, "|": 8}
 
@@ -98,13 +99,18 @@ func precInst(ops []string, neg []bool, kinds []string) *vm.Instance {
 				tpl = append(tpl, "-", gap(false))
 			}
 		}
-		tpl = append(tpl, k)
+		if k[0] == 'Q' {
+			// prefixed name p:NAME (no namespace map: the prefix is kept literally)
+			tpl = append(tpl, "p", ":", "N"+k[1:])
+		} else {
+			tpl = append(tpl, k)
+		}
 		if i < len(ops) {
 			op := ops[i]
-			nameLeft := k[0] == 'N' || (k[0] >= '0' && k[0] <= '9')
+			nameLeft := k[0] == 'N' || k[0] == 'Q' || (k[0] >= '0' && k[0] <= '9')
 			// whitespace is required where the operator would merge with a name-like token
 			tpl = append(tpl, gap(wordOp(op) || (op == "-" && nameLeft)), op)
-			nextNameLike := kinds[i+1][0] == 'N' || (kinds[i+1][0] >= '0' && kinds[i+1][0] <= '9')
+			nextNameLike := kinds[i+1][0] == 'N' || kinds[i+1][0] == 'Q' || (kinds[i+1][0] >= '0' && kinds[i+1][0] <= '9')
 			// after a word operator a name character must not follow directly ('-' and digits are name characters)
 			tpl = append(tpl, gap(wordOp(op) && (nextNameLike || neg[i+1])))
 		}
@@ -159,13 +165,36 @@ func buildC10(tier string, seed int64) *Family {
 			}
 		}
 		insts = append(insts, precInst(ops, neg, kinds))
+		if precQ {
+			// the same chain with prefixed names in place of some of the plain names
+			qk := append([]string{}, kinds...)
+			any := false
+			for i := range qk {
+				if qk[i][0] == 'N' && (i+len(ops))%2 == 0 {
+					qk[i] = "Q" + qk[i][1:]
+					any = true
+				}
+			}
+			if !any && qk[0][0] == 'N' {
+				qk[0] = "Q" + qk[0][1:]
+				any = true
+			}
+			if any {
+				insts = append(insts, precInst(ops, append([]bool{}, neg...), qk))
+			}
+		}
 	}
 	// every ordered pair of operators, plain and with a unary minus on each operand
+	precQ = true
 	for _, a := range allOps {
 		for _, b := range allOps {
 			mk([]string{a, b}, []bool{false, false, false})
 		}
 	}
+	for _, a := range allOps {
+		mk([]string{a}, []bool{false, false})
+	}
+	precQ = tier == "thorough"
 	for k, a := range allOps {
 		mk([]string{a}, []bool{true, false})
 		mk([]string{a}, []bool{false, true})
@@ -222,6 +251,9 @@ func buildC10(tier string, seed int64) *Family {
 		{"( N1 ) // N2", "( N1 ) / descendant-or-self :: node ( ) / N2"}, {"( N1 | N2 ) // N3", "( N1 | N2 ) / descendant-or-self :: node ( ) / N3"},
 		{"( / N1 ) // N2", "( / N1 ) / descendant-or-self :: node ( ) / child :: N2"}, {"( N1 ) [ 2 ] // N2", "( N1 ) [ 2 ] / descendant-or-self :: node ( ) / N2"},
 		{"reverse ( N1 ) // N2", "reverse ( N1 ) / descendant-or-self :: node ( ) / N2"}, {"N1 [ N2 ] // N3", "child :: N1 [ child :: N2 ] / descendant-or-self :: node ( ) / child :: N3"},
+		{"p : N1", "child :: p : N1"}, {"@ p : N1", "attribute :: p : N1"}, {"p : N1 / ..", "child :: p : N1 / parent :: node ( )"}, {"p : N1 / N2", "child :: p : N1 / child :: N2"},
+		{"p : N1 // N2", "child :: p : N1 / descendant-or-self :: node ( ) / child :: N2"}, {"p : N1 / .", "child :: p : N1 / self :: node ( )"}, {"p : N1 [ N2 ]", "child :: p : N1 [ child :: N2 ]"},
+		{"p : N1 / @ N2", "child :: p : N1 / attribute :: N2"}, {"p : N1 | N2", "child :: p : N1 | child :: N2"}, {"p : N1 / text ( )", "child :: p : N1 / child :: text ( )"}, {"p : * / N1", "child :: p : * / child :: N1"},
 		{"( N1 ) / N2", "( N1 ) / child :: N2"}, {"( N1 ) // @ N2", "( N1 ) / descendant-or-self :: node ( ) / attribute :: N2"}, {"( N1 ) // .", "( N1 ) / descendant-or-self :: node ( ) / self :: node ( )"},
 	}
 	for _, p := range ab {
@@ -229,8 +261,10 @@ func buildC10(tier string, seed int64) *Family {
 			Params: map[string]string{"mode": "abbrev", "tpl": p[0], "tpl2": p[1]}})
 		// the same with symbolic whitespace between all tokens of the abbreviated form
 		var ws []string
-		for i, t := range strings.Fields(p[0]) {
-			if i > 0 {
+		fields := strings.Fields(p[0])
+		for i, t := range fields {
+			// no whitespace inside a qualified name
+			if i > 0 && t != ":" && fields[i-1] != ":" {
 				ws = append(ws, fmt.Sprintf("W%d", 1+i%precGapPieces))
 			}
 			ws = append(ws, t)
